@@ -7,6 +7,7 @@ import Poulpy.Lemmas.RingSwitch
 import Poulpy.Lemmas.RingVec
 import Poulpy.Lemmas.Galois
 import Poulpy.Lemmas.NegRing
+import Poulpy.Lemmas.RingMask
 
 /-!
 # C09 — coefficient-domain ring operations match `Z[X]/(X^N+1)` exactly
@@ -175,6 +176,39 @@ theorem automorphism_even_inadmissible :
     znxAutomorphismIntoW w64 2 [9, 9, 9, 9] [1, 2, 3, 4] = [-3, 9, -4, 9] ∧ ¬ GalOk 2 4 := by
   refine ⟨by decide, ?_⟩
   intro h; have := h.1; omega
+
+/-- **in-place form, odd `g`**: `vec_znx_automorphism_assign` goes through a scratch polynomial that is never
+initialised; for an odd `g` its content (`tmp0`, any `i64` values) is irrelevant and every limb becomes `σ_g` of itself -/
+theorem automorphism_assign_scratch_irrelevant (k : Nat) (g : Int) (hg : g % 2 = 1) (tmp0 : Poly) (res : Col)
+    (ht : tmp0.length = 2 ^ k) (hT : AllP I64 tmp0) (hl : ∀ l ∈ res, l.length = 2 ^ k) (hp : ∀ l ∈ res, AllP I64 l) :
+    (vecAutomorphismAssignScr w64 g tmp0 res).1 = vecAutomorphismAssignW w64 g res := by
+  have := autoAssignScr_eq negOn64 g (2 ^ k) (by positivity) (galOk_pow2 k hg) res hl hp [] tmp0 ht hT
+  simpa [vecAutomorphismAssignScr, vecAutomorphismAssignW] using this
+
+/-- **in-place form, even `g`** (inadmissible; the guard is `g % 2 = 1`): what the code does is
+`vecAutomorphismAssignScr` — the coefficients the scatter loop does not hit are read from the scratch arena for limb 0
+and from the previous limb's result afterwards.  Witness: `g = 2`, two limbs, two different scratch contents. -/
+theorem automorphism_assign_even_reads_scratch :
+    (vecAutomorphismAssignScr w64 2 [7, 7, 7, 7] [[1, 2, 3, 4], [10, 20, 30, 40]]).1 = [[-3, 7, -4, 7], [-30, 7, -40, 7]] ∧
+    (vecAutomorphismAssignScr w64 2 [0, 0, 0, 0] [[1, 2, 3, 4], [10, 20, 30, 40]]).1 = [[-3, 0, -4, 0], [-30, 0, -40, 0]] := by
+  constructor <;> decide
+
+/-! ## the index masks of the Rust are the model's `%` -/
+
+/-- `(p & (2n-1)) as usize` on the two's-complement `i64` `p` is `p mod 2n` (non-negative remainder of the signed
+value) for `2n = 2^k`: `mp_2n` of `znx_rotate`, `p_2n` of `znx_automorphism_ref` -/
+theorem mask_i64_is_mod (p : BitVec 64) (k : Nat) (hk : k ≤ 63) :
+    ((p &&& (BitVec.ofNat 64 (2 ^ k) - 1#64)).toNat : Int) = p.toInt % (2 ^ k : Int) := mask_i64 p k hk
+
+/-- in the shape the model uses it, degree `n = 2^j` -/
+theorem mask_i64_is_model_index (p : BitVec 64) (j : Nat) (hj : j ≤ 62) :
+    (p &&& (BitVec.ofNat 64 (2 * 2 ^ j) - 1#64)).toNat = (p.toInt % (2 * ((2 ^ j : Nat) : Int))).toNat :=
+  mask_i64_model p j hj
+
+/-- `usize` / `u64` masks (`mp_2n & (n-1)`, `k & mask`, `g_exp & (cyclotomic_order-1)`) -/
+theorem mask_unsigned_is_mod (x k : Nat) : x &&& (2 ^ k - 1) = x % 2 ^ k := mask_nat x k
+
+example : ((BitVec.ofInt 64 (-3)) &&& (BitVec.ofNat 64 (2 ^ 3) - 1#64)).toNat = 5 := by decide
 
 /-! ## Galois elements (`layouts/module.rs`) -/
 
